@@ -109,6 +109,9 @@ func GenOps(r *hx.Rng, n int, closeOK bool) []Op {
 			if r.Chance(1, 20) {
 				o.L.T = BadEmpty // a target ref that cannot be committed: the empty string
 			}
+			if r.Chance(1, 10) {
+				o.L.W = r.Intn(nnames) + 1 // WithParent travels with the opts into the internal commit
+			}
 			t.nextID++
 			if o.MOK {
 				if _, ok := t.kind[o.L.T]; !ok {
@@ -138,6 +141,15 @@ func GenOps(r *hx.Rng, n int, closeOK bool) []Op {
 				k = r.Intn(nnames)
 			}
 			o = Op{Op: "commit", Key: k, Name: t.fresh(r), L: labels()}
+			if r.Chance(1, 5) {
+				// snapshots.WithParent on Commit: rebase onto a committed snapshot, or a parent that is missing /
+				// not committed / different from the one the snapshot has
+				if p, ok := t.pick(r, isCommitted); ok && r.Chance(2, 3) {
+					o.L.W = p + 1
+				} else {
+					o.L.W = r.Intn(nnames) + 1
+				}
+			}
 			if r.Chance(1, 25) {
 				o.Name = BadEmpty
 			}
